@@ -262,6 +262,30 @@ def window_enforcement(prog, res):
             continue     # already reported by the before-every-block instance
         c = cs[0]
         res.check(any(strip_casts(a).get("n", "").startswith("maxDist") for a in c["a"]), R, cal + ":maxDist-arg", f.loc, "receives maxDist", "does not receive maxDist")
+    # long-distance matcher: it relies on the window limits alone, so the limit must be enforced for the END of each chunk
+    l = prog.fn("ZSTD_ldm_generateSequences")
+    enf = [c for b, i, c in l.calls("ZSTD_window_enforceMaxDist")]
+    gen = [c for b, i, c in l.calls("ZSTD_ldm_generateSequences_internal")]
+    ok = len(enf) == 1 and len(gen) == 1
+    if ok:
+        # identity of locals inside this one function (names are compared with each other, never frozen)
+        end = strip_casts(enf[0]["a"][1]).get("n")
+        start = strip_casts(gen[0]["a"][3]).get("n")
+        szd = l.single_def(strip_casts(gen[0]["a"][4]).get("n", "")) if strip_casts(gen[0]["a"][4]).get("k") == "ref" else None
+        szd = strip_casts(szd) if szd is not None else None
+        ok = bool(end) and bool(start) and end != start and szd is not None and szd.get("k") == "bin" and szd["op"] == "-" and \
+            strip_casts(szd["lhs"]).get("n") == end and strip_casts(szd["rhs"]).get("n") == start
+    res.check(ok, R, "ldm:max-distance-enforced-at-chunk-end", l.loc,
+              "ZSTD_window_enforceMaxDist is given the end of the chunk that ZSTD_ldm_generateSequences_internal then scans",
+              "the long-distance matcher enforces the window for another position than the end of the chunk it scans: matches "
+              "further back than the declared window become possible")
+    er, gr = l.call_roots("ZSTD_window_enforceMaxDist"), l.call_roots("ZSTD_ldm_generateSequences_internal")
+    res.check(bool(er) and bool(gr) and l.must_pass(via_roots=er, targets=gr) and l.must_pass(via_roots=er, starts=[(b, i + 1) for b, i in gr], targets=gr),
+              R, "ldm:enforce-before-every-chunk", l.loc, "enforcement precedes the scan of every chunk", "a chunk can be scanned without enforcing the window first")
+    md = [c for b, i, c in l.calls("ZSTD_window_enforceMaxDist")]
+    mdl = [d for n, ds in l.local_defs().items() if n.startswith("maxDist") for d in ds if d is not None]
+    res.check(bool(mdl) and any(y.get("k") == "bin" and y["op"] == "<<" for y in walk(mdl[0])) and "f:windowLog" in l.anchors(mdl[0]), R,
+              "ldm:maxDist-is-window-size", l.loc, "maxDist = 1 << windowLog", "LDM maxDist no longer derives from windowLog")
     callers = {c.name for n in ("ZSTD_compressBlock_internal", "ZSTD_compressBlock_splitBlock", "ZSTD_compressBlock_targetCBlockSize")
                for c in prog.callers().get(n, [])}
     res.check(callers <= {"ZSTD_compress_frameChunk", "ZSTD_compressContinue_internal"}, "T10.block-entry", "block-compressor-callers", f.loc,
